@@ -221,6 +221,10 @@ def obligations(tier, seed):
             variants = [("blk=4096", mb, ["block == 4096"]), ("blk=1frame", mb, [f"block == {fr}"])]
             if q and ns == 3:
                 variants = variants[1:]
+            if q and ns == 2 and chans[0] != chans[1]:
+                # streams with different frame sizes, two rounds: a per-stream block that is not the same number of FRAMES for every
+                # stream only shows from the second round on (seed C12c)
+                variants.append(("blk=1frame/2rounds", 2, [f"block == {fr}"]))
             if not q:
                 variants.append((f"blk={3 * fr + 1}", mb, [f"block == {3 * fr + 1}"]))
         for vname, mb, vpre in variants:
